@@ -13,6 +13,9 @@
 (* header that matches the name, key owned by the wallet with that         *)
 (* ordinal - with state ready or registered from its progress; must index  *)
 (* nothing else; must serve                                                *)
+(* (The trace specification also follows the start-up with a Delete of     *)
+(* every indexed space: nothing of a deleted space may be left, nothing    *)
+(* else may be touched.)                                                   *)
 (* proofs only from good plotted files; and indexing must not delete or    *)
 (* alter any file (legacy names are renamed to the current format).        *)
 (***************************************************************************)
